@@ -454,6 +454,12 @@ class Parser(object):
                 t.lineno(1), t.lexpos(1)
             )
             t[0] = 0
+        except ValueError:
+            self._parser_error(
+                'negative shift count',
+                t.lineno(1), t.lexpos(1)
+            )
+            t[0] = 0
         t.slice[0].lineno = t.lineno(1)
         t.slice[0].lexpos = t.lexpos(1)
 
